@@ -432,10 +432,10 @@ def run(ctx):
     gen("X04_gen_tls_t.cfg" if thorough else "X04_gen_tls.cfg", "gen", "tls")
     gen("X04_gen_regctl.cfg", "gen", "regctl")
     sim = dict(depth=8, extra=["-seed", str(ctx.seed)])
-    gen("X04_gen_res.cfg", "gen", "resolve", simulate="num=%d" % (1500 if thorough else 260), **sim)
+    gen("X04_gen_res.cfg", "gen", "resolve", simulate="num=%d" % (2500 if thorough else 260), **sim)
     gen("X04_gen_res_alias.cfg", "gen", "resolve-alias", simulate="num=%d" % (150 if thorough else 24), **sim)
     if thorough:
-        gen("X04_gen_res_wide.cfg", "gen", "resolve-wide", simulate="num=400", **sim)
+        gen("X04_gen_res_wide.cfg", "gen", "resolve-wide", simulate="num=600", **sim)
 
     t0 = time.time()
     mc_runs = []
@@ -452,7 +452,7 @@ def run(ctx):
             raise vlib.ToolError("generator %s produced no scenario" % label)
         if label == "regctl":
             # one process of the real binary per probe: a seeded sample of the enumerated set-ups
-            g["scenarios"] = vlib.sample(rng, g["scenarios"], 700 if thorough else 45)
+            g["scenarios"] = vlib.sample(rng, g["scenarios"], 1000 if thorough else 45)
             per_gen["regctl-sampled"] = len(g["scenarios"])
         for i, s in enumerate(g["scenarios"]):
             s["id"] = "%s-%d" % (label, i)
